@@ -50,12 +50,15 @@ pub struct Probe {
 
 fn build(case: &str, mode: &str, v: Vis, item_vis: &str, site: &str) -> Probe {
     let vs = v.src(case);
+    // an unrelated option rotates through the lattice: it must not influence visibility
+    let n: usize = case[1..].parse().unwrap_or(0);
+    let extra = ["", ", unimock = false", ", mock_api = TheMock", ", mockall = false", ", ?Send"][n % 5];
     let (item, name) = match mode {
-        "fn" => (format!("#[::entrait::entrait({vs}TheTrait)]\n{item_vis}fn the_fn(_deps: &impl Sized) {{}}"), "TheTrait"),
-        "mod" => (format!("#[::entrait::entrait({vs}TheTrait)]\n{item_vis}mod m {{ pub fn f(_deps: &impl Sized) {{}} }}"), "TheTrait"),
+        "fn" => (format!("#[::entrait::entrait({vs}TheTrait{extra})]\n{item_vis}fn the_fn(_deps: &impl Sized) {{}}"), "TheTrait"),
+        "mod" => (format!("#[::entrait::entrait({vs}TheTrait{extra})]\n{item_vis}mod m {{ pub fn f(_deps: &impl Sized) {{}} }}"), "TheTrait"),
         // the delegation-target trait takes the visibility of the original trait, whatever is written before its name
-        "trait_static" => (format!("#[::entrait::entrait({item_vis}TrImpl, delegate_by = DelegateTr)]\n{vs}trait Tr {{ fn m(&self); }}"), "TrImpl"),
-        _ => (format!("#[::entrait::entrait({item_vis}TrImpl, delegate_by = ref)]\n{vs}trait Tr {{ fn m(&self); }}"), "TrImpl"),
+        "trait_static" => (format!("#[::entrait::entrait({item_vis}TrImpl, delegate_by = DelegateTr{extra})]\n{vs}trait Tr {{ fn m(&self); }}"), "TrImpl"),
+        _ => (format!("#[::entrait::entrait({item_vis}TrImpl, delegate_by = ref{extra})]\n{vs}trait Tr {{ fn m(&self); }}"), "TrImpl"),
     };
     let site_fn = |rel: &str| format!("#[allow(unused_imports)] fn site() {{ use {rel}::{name} as _; }}");
     let s = |cond: &str, rel: &str| if site == cond { site_fn(rel) } else { String::new() };
